@@ -116,6 +116,9 @@ def judge(prog, cfg, cdc, v, res, case):
     if enc.ok:
         res.nontrivial.add(key)
     # (1) round trip
+    if mode is not None and E.union_order_conflict(term):
+        res.violation("C02/rt/both-union-orders-in-one-annotation", f"codec round trip of {short(v, 100)} as {term.src} fails ({mode}): Union[A, B] and Union[B, A] in one annotation", case)
+        mode = None
     if mode is not None:
         excused = False
         if (term.has_union or term.has_opt) and c01._has_ambiguous_union(ns, term, v):
